@@ -86,6 +86,300 @@ def only_when_raise_or_guard(f, c, praise):
     return False
 
 
+class _TileUnknown(Exception):
+    pass
+
+
+_TILE_IGNORED = ("::reserve", "::emplace_back", "::push_back", "::notify_all", "::notify_one", "section_t::block")
+
+
+def _tile_eval(F, f, values, threads):
+    """Evaluate the integer loop nest of one `pool_t::map` instantiation for concrete parameter values: returns the operator invocations as
+    (argument values..., worker id) tuples, the worker id being "TNUM" when it is the id the pool hands to the task and a number otherwise.
+    Tasks passed to enqueue / enqueue_no_lock are run when the function blocks (by-value captures are snapshot at the enqueue).
+    Anything that is not integer arithmetic, a loop, a branch, a call of the operator or one of the pool's own calls raises _TileUnknown."""
+    env = dict(values)
+    opd = next(p_["d"] for p_ in f.params if p_.get("n") == "op")
+    calls, tasks = [], []
+    budget = [400000]
+
+    def ev(n, env):
+        budget[0] -= 1
+        if budget[0] < 0:
+            raise _TileUnknown("evaluation does not terminate")
+        k = n["k"]
+        if k in ("paren", "cast"):
+            if k == "cast" and n.get("ck") == "ToVoid":
+                return None
+            return ev(n["c"][0], env)
+        if k in ("int", "bool"):
+            return int(n["v"])
+        if k == "ref":
+            if n.get("d") in env:
+                return env[n["d"]]
+            raise _TileUnknown("variable `%s`" % n.get("n"))
+        if k == "cond":
+            return ev(n["c"][1], env) if ev(n["c"][0], env) else ev(n["c"][2], env)
+        if k == "un":
+            op = n.get("op")
+            if op in ("++", "--"):
+                t = skip(n["c"][0])
+                if t["k"] != "ref" or t.get("d") not in env:
+                    raise _TileUnknown(pp(n))
+                old = env[t["d"]]
+                env[t["d"]] = old + (1 if op == "++" else -1)
+                return old if n.get("post") else env[t["d"]]
+            v = ev(n["c"][0], env)
+            if op == "!":
+                return int(not v)
+            if op == "-":
+                return -v
+            if op == "+":
+                return v
+            raise _TileUnknown(pp(n))
+        if k == "bin":
+            op = n["op"]
+            if op == "&&":
+                return int(bool(ev(n["c"][0], env)) and bool(ev(n["c"][1], env)))
+            if op == "||":
+                return int(bool(ev(n["c"][0], env)) or bool(ev(n["c"][1], env)))
+            if op == ",":
+                ev(n["c"][0], env)
+                return ev(n["c"][1], env)
+            if op.endswith("=") and op not in ("==", "!=", "<=", ">="):
+                t = skip(n["c"][0])
+                if t["k"] != "ref" or t.get("d") not in env:
+                    raise _TileUnknown("assignment to " + pp(t))
+                b = ev(n["c"][1], env)
+                env[t["d"]] = b if op == "=" else arith(op[:-1], env[t["d"]], b, n)
+                return env[t["d"]]
+            return arith(op, ev(n["c"][0], env), ev(n["c"][1], env), n)
+        if k == "call":
+            cal = callee(n)
+            if n.get("ck") == "op" and n.get("op") == "()" and n.get("c") and ref_decl(n["c"][0]) == opd:
+                vals = []
+                for a_ in n["c"][1:]:
+                    vals.append(ev(a_, env))
+                calls.append(tuple(vals))
+                return None
+            if cal in ("std::min", "std::max") and len(args(n)) == 2:
+                a_, b_ = ev(args(n)[0], env), ev(args(n)[1], env)
+                return min(a_, b_) if cal == "std::min" else max(a_, b_)
+            if cal == "nano::parallel::pool_t::size":
+                return threads
+            if cal in REQUIRES_LOCK or cal == "nano::parallel::queue_t::enqueue" or cal == "nano::parallel::pool_t::enqueue":
+                lams = [x for a_ in args(n) for x in walk(a_) if x["k"] == "lambda"]
+                if len(lams) != 1:
+                    raise _TileUnknown("task passed to %s is not a lambda" % cal.split("::")[-1])
+                lam = lams[0]
+                bodies = F.by_lid.get(lam.get("lid"), [])
+                if not bodies:
+                    raise _TileUnknown("task body not found")
+                snap = {}
+                for c_ in lam.get("caps", []):
+                    if c_.get("n") == "this" or c_.get("d") == opd:
+                        continue
+                    if c_.get("d") not in env:
+                        raise _TileUnknown("task captures `%s`" % c_.get("n"))
+                    if not c_.get("ref"):
+                        snap[c_["d"]] = env[c_["d"]]
+                tasks.append((bodies[0], snap, [c_["d"] for c_ in lam.get("caps", []) if c_.get("ref") and c_.get("d") in env]))
+                return None
+            if any(cal.endswith(x) for x in _TILE_IGNORED):
+                if cal.endswith("section_t::block"):
+                    drain(env)
+                for a_ in args(n):
+                    if any(x["k"] == "call" and (callee(x) in REQUIRES_LOCK or callee(x).endswith("::enqueue")) for x in walk(a_)):
+                        ev_enq(a_, env)
+                return None
+            raise _TileUnknown("call of " + (cal or pp(n)[:40]))
+        if k == "construct":
+            return None
+        raise _TileUnknown(pp(n)[:60])
+
+    def ev_enq(n, env):
+        for x in walk(n):
+            if x["k"] == "call" and (callee(x) in REQUIRES_LOCK or callee(x).endswith("::enqueue")):
+                ev(x, env)
+                return
+
+    def arith(op, a_, b_, n):
+        if a_ is None or b_ is None or isinstance(a_, str) or isinstance(b_, str):
+            raise _TileUnknown(pp(n)[:60])
+        if op in ("/", "%"):
+            if b_ == 0:
+                raise _TileUnknown("division by zero in " + pp(n)[:60])
+            q = abs(a_) // abs(b_) * (1 if (a_ >= 0) == (b_ >= 0) else -1)
+            return q if op == "/" else a_ - q * b_
+        table = {"+": lambda: a_ + b_, "-": lambda: a_ - b_, "*": lambda: a_ * b_, "<": lambda: int(a_ < b_), "<=": lambda: int(a_ <= b_),
+                 "==": lambda: int(a_ == b_), "!=": lambda: int(a_ != b_), ">": lambda: int(a_ > b_), ">=": lambda: int(a_ >= b_)}
+        if op not in table:
+            raise _TileUnknown(pp(n)[:60])
+        return table[op]()
+
+    class _Break(Exception):
+        pass
+
+    class _Continue(Exception):
+        pass
+
+    class _Return(Exception):
+        pass
+
+    def ex(s, env):
+        if s is None:
+            return
+        k = s["k"]
+        if k == "block":
+            for c_ in s.get("c", ()):
+                ex(c_, env)
+        elif k == "declstmt":
+            for v in s.get("c", ()):
+                if v is None or v["k"] != "var":
+                    continue
+                init = v["c"][0] if v.get("c") else None
+                if init is None or skip(init)["k"] == "construct":
+                    continue                    # a class-typed local (the section, the lock)
+                env[v["d"]] = ev(init, env)
+        elif k == "if":
+            r = s["r"]
+            if "init" in r:
+                ex(s["c"][r.index("init")], env)
+            c_ = ev(s["c"][r.index("cond")], env)
+            if c_:
+                ex(s["c"][r.index("then")], env)
+            elif "else" in r:
+                ex(s["c"][r.index("else")], env)
+        elif k == "for":
+            r = s["r"]
+            ex(s["c"][r.index("init")], env) if "init" in r and s["c"][r.index("init")] is not None else None
+            while True:
+                cnd = s["c"][r.index("cond")] if "cond" in r else None
+                if cnd is not None and not ev(cnd, env):
+                    break
+                try:
+                    ex(s["c"][r.index("body")], env)
+                except _Break:
+                    break
+                except _Continue:
+                    pass
+                inc = s["c"][r.index("inc")] if "inc" in r else None
+                if inc is not None:
+                    ev(inc, env)
+        elif k == "while":
+            while ev(s["c"][0], env):
+                try:
+                    ex(s["c"][1], env)
+                except _Break:
+                    break
+                except _Continue:
+                    pass
+        elif k == "break":
+            raise _Break()
+        elif k == "continue":
+            raise _Continue()
+        elif k == "return":
+            raise _Return()
+        elif k in ("null", "empty"):
+            return
+        else:
+            ev(s, env)
+
+    def drain(env):
+        while tasks:
+            body, snap, byref = tasks.pop(0)
+            tenv = dict(snap)
+            for d_ in byref:
+                tenv[d_] = env[d_]
+            for d_, v_ in values.items():
+                tenv.setdefault(d_, v_)
+            if body.params:
+                tenv[body.params[0]["d"]] = "TNUM"
+            try:
+                ex(body.body, tenv)
+            except _Return:
+                pass
+
+    try:
+        ex(f.body, env)
+    except _Return:
+        pass
+    drain(env)
+    return calls
+
+
+def rule_tiling(F, R, maps, rule):
+    """the operator invocations of pool_t::map, evaluated from its loop nest for a grid of (threads, elements, chunksize), cover every index
+    of [0, elements) exactly once, in ranges of at most `chunksize` elements; the worker id is the pool's (inside a task) or 0 (sequential branch)"""
+    small = [(t, e, c) for t in (1, 2, 3, 4, 16) for e in range(0, 71) for c in (1, 2, 3, 4, 7, 10, 64, 100)]
+    large = [(t, e, c) for t in (2, 3, 16) for e in (127, 128, 129, 200, 1000, 5001) for c in (1, 3, 100)]
+    seen = set()
+    for f in maps:
+        if f.line in seen:
+            continue
+        seen.add(f.line)
+        tag = "map@%d" % f.line
+        pe = f.param("elements")
+        pc = f.param("chunksize")
+        if pe is None or not any(p_.get("n") == "op" for p_ in f.params):
+            R.incomplete(rule, tag + " tiling", f.loc(), "expected the parameters (elements[, chunksize], op)")
+            continue
+        grid = small + large if pc is not None else sorted({(t, e, 1) for t, e, _ in small + large})
+        bad = unknown = None
+        n = 0
+        for t, e, c in grid:
+            vals = {pe["d"]: e}
+            if pc is not None:
+                vals[pc["d"]] = c
+            for p_ in f.params:
+                if p_.get("n") == "raise":
+                    vals[p_["d"]] = 1
+            try:
+                got = _tile_eval(F, f, vals, t)
+            except _TileUnknown as ex_:
+                unknown = str(ex_)
+                break
+            n += 1
+            where = "%d worker(s), %d elements%s" % (t, e, ", chunks of %d" % c if pc is not None else "")
+            ids = {g[-1] for g in got}
+            if not ids <= {"TNUM", 0}:
+                bad = "%s: the operator is given the worker id %s" % (where, sorted(map(str, ids - {"TNUM", 0}))[:2])
+                break
+            if pc is None:
+                idx = sorted(g[0] for g in got)
+                if any(len(g) != 2 for g in got) or idx != list(range(e)):
+                    miss = sorted(set(range(e)) - set(idx))
+                    dup = sorted({i for i in idx if idx.count(i) > 1})
+                    bad = "%s: %s" % (where, ("indices %s are never handed to the operator" % miss[:4]) if miss else
+                                      ("indices %s are handed to the operator more than once" % dup[:4]) if dup else "indices outside [0, elements) are handed to the operator")
+                    break
+            else:
+                if any(len(g) != 3 for g in got):
+                    bad = "%s: the operator is not called as op(begin, end, tnum)" % where
+                    break
+                rs = sorted((g[0], g[1]) for g in got)
+                pos = 0
+                for b_, e_ in rs:
+                    if b_ != pos or e_ <= b_ or e_ - b_ > c:
+                        bad = "%s: ranges %s: %s" % (where, rs[:3] + (["..."] if len(rs) > 6 else []) + rs[-3:] if len(rs) > 3 else rs,
+                                                    "[%d, %d) is handed out twice" % (b_, min(pos, e_)) if b_ < pos else
+                                                    "[%d, %d) is never handed to the operator" % (pos, b_) if b_ > pos else
+                                                    "an empty range" if e_ <= b_ else "a range of %d > chunksize elements" % (e_ - b_))
+                        break
+                    pos = e_
+                if bad is None and pos != e:
+                    bad = "%s: [%d, %d) is never handed to the operator (ranges end with %s)" % (where, pos, e, rs[-2:])
+                if bad:
+                    break
+        if unknown and not bad:
+            R.incomplete(rule, tag + " tiling", f.loc(), "cannot evaluate the loop nest of map: %s" % unknown)
+        else:
+            R.check(bad is None, rule, tag + " tiling", f.loc(),
+                    "the operator invocations tile [0, elements) exactly once%s, with the pool's worker id in tasks and 0 on the calling thread (%d configurations of "
+                    "workers x elements%s evaluated from the loop nest)" % (" in ranges of at most chunksize" if pc is not None else "", n, " x chunksize" if pc is not None else ""),
+                    bad or "")
+
+
 def run(ctx):
     R = ctx.report
     tus = list(TUS)
@@ -291,16 +585,6 @@ def run(ctx):
             if first or byref:
                 R.check(not byref, "R-C17-6", "%s task-captures@%s" % (tag, f.loc(lam)), f.loc(lam),
                         "task lambda captures the operator and its indices by value", "task lambda captures %s by reference (loop variable outlives?)" % byref)
-            opcalls = [c for c in body.calls(lambda n: n.get("ck") == "op" and n.get("op") == "()")]
-            if len(opcalls) == 1:
-                a = [pp(x) for x in opcalls[0]["c"][1:]]
-                tn = body.params[0]["n"] if body.params else "?"
-                want = [k for k in caps if k != "op"] + [tn]
-                if first or a != want:
-                    R.check(a == want, "R-C17-6", "%s task-forwards@%s" % (tag, f.loc(lam)), f.loc(lam),
-                            "task calls op(%s)" % ", ".join(want), "task calls op(%s), expected op(%s)" % (", ".join(a), ", ".join(want)))
-            elif first:
-                R.incomplete("R-C17-6", "%s task-body" % tag, f.loc(lam), "expected exactly one call of the operator in the task")
     # ---- R-C17-9 the shared queue only grows at its tail and shrinks at its head: the operations ever applied to queue_t::m_tasks are
     # emplace_back / push_back (publish), front + pop_front (the worker takes the oldest task) and the read-only empty / size. Anything that
     # replaces or removes other entries (swap, clear, erase, assignment, resize, pop_back, ...) drops tasks other callers have queued: those are
@@ -426,62 +710,7 @@ def run(ctx):
         R.check(deliver, "R-C17-5", "section block raise", block.loc(), "with raise == true a task's exception is re-thrown to the caller", "block(true) no longer re-throws a task's exception")
 
     # ---- R-C17-6 tiling
-    for f in maps:
-        if f.line in [g.line for g in maps[:maps.index(f)]]:
-            continue
-        chunked = any(p["n"] == "chunksize" for p in f.params)
-        loops = [n for n in f.nodes() if n["k"] == "for"]
-        tag = "map@%d" % f.line
-        if len(loops) != 2:
-            R.incomplete("R-C17-6", tag, f.loc(), "expected a sequential and a parallel loop")
-            continue
-        shapes = []
-        for lp in loops:
-            init, cond, inc, body = (lp["c"][lp["r"].index(r)] for r in ("init", "cond", "inc", "body"))
-            iv = init["c"][0] if init["k"] == "declstmt" else None
-            shape = {"init": pp(iv["c"][0]) if iv is not None and iv.get("c") else "?", "cond": pp(cond), "inc": pp(inc), "var": iv["n"] if iv else "?"}
-            # the range handed to the operator / captured by the task
-            rng = None
-            for c in walk(body):
-                if c["k"] == "call" and c.get("ck") == "op" and c.get("op") == "()" and pp(c["c"][0]) == "op":
-                    rng = [x for x in c["c"][1:-1]]
-            if rng is None:
-                for c in walk(body):
-                    if c["k"] == "lambda":
-                        rng = []
-                        for cap in c.get("caps", []):
-                            if cap["n"] in ("op", "this"):
-                                continue
-                            rng.append(cap)
-            shape["range"] = rng
-            shapes.append((lp, shape))
-        (l1, s1), (l2, s2) = shapes
-        same = all(s1[k] == s2[k] for k in ("init", "cond", "inc", "var"))
-        R.check(same, "R-C17-6", tag + " loops agree", f.loc(l2), "sequential and parallel loops iterate identically (%s; %s; %s)" % (s1["init"], s1["cond"], s1["inc"]),
-                "sequential loop (%s; %s; %s) and parallel loop (%s; %s; %s) differ" % (s1["init"], s1["cond"], s1["inc"], s2["init"], s2["cond"], s2["inc"]))
-        v = s1["var"]
-        want_inc = "(%s += chunksize)" % v if chunked else "(++%s)" % v
-        R.check(s1["init"] == "0" and s1["cond"] == "(%s < elements)" % v and s1["inc"] == want_inc, "R-C17-6", tag + " loop shape", f.loc(l1),
-                "loop starts at 0, runs while %s < elements, advances by %s" % (v, "chunksize" if chunked else "1"),
-                "loop is (%s; %s; %s)" % (s1["init"], s1["cond"], s1["inc"]))
-        if chunked:
-            # end expression in both branches = min(begin + chunksize, elements)
-            ends = []
-            seq = s1["range"]
-            if seq and len(seq) == 2 and isinstance(seq[1], dict) and "k" in seq[1]:
-                ends.append(seq[1])
-            for n in walk(l2["c"][l2["r"].index("body")]):
-                if n["k"] == "var" and n["n"] == "end" and n.get("c"):
-                    ends.append(n["c"][0])
-            okc = len(ends) == 2
-            for e in ends:
-                z, det = kalg.compare_expr(f, e, "Min(%s + chunksize, elements)" % v, seed=R.seed)
-                okc = okc and bool(z)
-            R.check(okc, "R-C17-6", tag + " chunk end", f.loc(l2), "chunk end = min(begin + chunksize, elements) in both branches",
-                    "chunk end expressions: %s" % [pp(e) for e in ends])
-            caps = [c["n"] for c in (s2["range"] or []) if isinstance(c, dict) and "n" in c]
-            R.check(caps == [v, "end"], "R-C17-6", tag + " task range", f.loc(l2), "task captures (begin, end) of its own chunk",
-                    "task captures %s" % caps)
+    rule_tiling(F, R, maps, "R-C17-6")
 
     # ---- R-C17-7 worker ids
     wctor = [f for f in fns if f.cls == "nano::parallel::worker_t" and f.raw.get("ctor") == "other"]
